@@ -470,8 +470,11 @@ def run(tier, workers=None):
                 jobs.append((kind, "threads", ops, 2, 1500))
             for ops in TRIPLES:
                 jobs.append((kind, "processes", ops, 2, 1500))
-            for ops in PAIRS[:8]:
-                jobs.append((kind, "processes-late-open", ops, 2, 1500))
+            if kind == "tree":
+                # (one preemption: with two, dulwich's GitFile.close() defect - known finding (c) - shows under this mode too; the
+                # bare store has no lock an opening worker could disturb)
+                for ops in PAIRS:
+                    jobs.append((kind, "processes-late-open", ops, 1, 1500))
         for ops in PAIRS[:8]:
             jobs.append(("mem", "threads", ops, 2, 1500))
     ho = http_overlap_phase(rep, nw)
